@@ -39,7 +39,7 @@ def gen_cases(tier, seed):
         for i in range(n):
             jobs = []
             for j in range(rnd.randint(3, 6)):
-                jobs.append({"kind": rnd.choice(["ok", "ok", "fail_retry", "result"]), "d": rnd.choice([0.0, 0.3, 0.3, 2.0, 10.0])})
+                jobs.append({"kind": rnd.choice(["ok", "ok", "fail_retry", "result", "fail_nack"]), "d": rnd.choice([0.0, 0.3, 0.3, 2.0, 10.0])})
             base = {"kind": kind, "jobs": jobs, "tl": rnd.choice([1, 2, 1000]), "seed": rnd.randrange(10**6), "latency": None if kind == "mem" else rnd.choice([None, 0.002])}
             G = rnd.choice([0.0, 0.0, 0.5, 3.0]) if tier == "quick" else None
             parts = 6 if tier == "quick" else 8
@@ -62,6 +62,11 @@ def gen_cases(tier, seed):
             for part in range(parts):
                 cases.append(dict(base, fault="stop", graceful=g, sample=0.02 if tier == "quick" else 0.1, part=part, parts=parts))
         cases.append(dict(base, fault="limit", graceful=0.5, M=1, sample=0, part=0, parts=1))
+        # directed: every kind of disposition (ack, nack, requeue, result store) under an immediate forced cancellation
+        jobs = [{"kind": "fail_nack", "d": 0.3}, {"kind": "ok", "d": 0.3}, {"kind": "fail_retry", "d": 0.3}, {"kind": "result", "d": 0.3}, {"kind": "fail_nack", "d": 0.0}]
+        base = {"kind": kind, "jobs": jobs, "tl": 1000, "seed": rnd.randrange(10**6), "latency": None if kind == "mem" else 0.002}
+        for part in range(parts):
+            cases.append(dict(base, fault="stop", graceful=0.0, sample=0.02 if tier == "quick" else 0.1, part=part, parts=parts))
     return cases
 
 
@@ -106,9 +111,11 @@ async def scenario(loop, case, inject_step, info):
             ids.append(id_)
             if j["kind"] == "fail_retry":
                 script = {"by_attempt": [{"do": "raise", "d": j["d"]}, {"do": "ok", "d": 0.1}]}
+            elif j["kind"] == "fail_nack":
+                script = {"do": "raise", "d": j["d"]}  # no retries left: the disposition is nack
             else:
                 script = {"do": "ok", "d": j["d"], "ret": {"v": i}}
-            await w.job("act", id_, script, retries=1, timeout=timedelta(seconds=EXEC_TIMEOUT), store_result=(j["kind"] == "result")).enqueue()
+            await w.job("act", id_, script, retries=0 if j["kind"] == "fail_nack" else 1, timeout=timedelta(seconds=EXEC_TIMEOUT), store_result=(j["kind"] == "result")).enqueue()
         sig = __import__("signal").SIGUSR1
         wkw = {"messages_limit": case["M"]} if case.get("M") else {}
         worker = w.worker([r], tasks_limit=case["tl"], graceful_shutdown_time=case["graceful"], handle_signals=[sig], **wkw)
@@ -176,6 +183,8 @@ async def scenario(loop, case, inject_step, info):
         await asyncio.sleep(0.4)
         info.update(injected=injected, returned=returned, exc=repr(exc) if exc else None, t_return=t_return, end_step=loop.steps)
         info["event_steps"] = sorted({e["step"] for e in w.log.events if e.get("step", 0) > start_step})
+        info["disposition_steps"] = sorted({e["step"] for e in w.log.events if e.get("step", 0) > start_step and e.get("k") == "call"
+                                            and e.get("depth") == 0 and e.get("op") in ("ack", "nack", "reject", "requeue")})
         info["snapshot"] = w.rig.snapshot()
         info["stored"] = {i: w.rig.stored(i) for i in ids}
         ev = w.log.events
@@ -347,6 +356,9 @@ def run_case(case):
     points = set()
     for s in ev_steps:
         points.update((s - 1, s, s + 1))
+    # every step around a disposition call: the stop-to-cancel offset is a few steps, the calls themselves a few more
+    for s in base.get("disposition_steps", []):
+        points.update(range(s - 8, s + 6))
     lo, hi = base["start_step"] + 1, max(ev_steps) + 2
     others = [s for s in range(lo, hi) if s not in points]
     rnd.shuffle(others)
